@@ -97,6 +97,125 @@ def p_vals(%(args)s) -> str:
 ''' % dict(args=", ".join(args), pre="\n".join(pre) or "    pass", build=", ".join(build), key=key, cfg=cfg)
 
 
+# declarations outside the catalogue's language: Ref(..., embed=True) lends the fields of another packet class to this one
+# (a do-nothing placeholder field stays where the Ref was, followed by the borrowed fields)
+EMBED = {
+    "x_embed_var": ("name = Data(until_marker=b'\\x00')\n    kind = Int(1)",
+                    "size = Int(1)\n    body = Data(size)\n    hdr = Ref(Header, embed=True)\n    crc = Int(2)",
+                    [("size", "int"), ("body", "bytes"), ("name", "bytes"), ("kind", "int"), ("crc", "int")], 7),
+    "x_embed_fixed": ("a = Int(1)\n    b = Int(2, endianness='little')",
+                      "x = Int(1)\n    hdr = Ref(Header, embed=True)\n    y = Int(1)\n    d = Data(y)\n    z = Int(1)",
+                      [("x", "int"), ("a", "int"), ("b", "int"), ("y", "int"), ("d", "bytes"), ("z", "int")], 8),
+}
+
+EMBED_TEMPLATE = '''%(prelude)s
+
+
+class Header(Packet):
+    __bisturi__ = {"generate_for_pack": False, "generate_for_unpack": False}
+    %(header)s
+
+
+class Msg_ref(Packet):
+    __bisturi__ = {"generate_for_pack": False, "generate_for_unpack": False, "vectorize": False, "annotate": False}
+    %(body)s
+
+
+class Msg_alt(Packet):
+    __bisturi__ = %(opts)r
+    %(body)s
+
+
+REF, ALT = Msg_ref, Msg_alt
+NAMES = %(names)r
+
+
+def _unpack(cls, raw, off):
+    p = cls(_initialize_fields=False)
+    try:
+        end = p.unpack_impl(raw, off, root=p)
+    except PacketError as e:
+        return None, None
+    return p, end
+
+
+def _values(p):
+    return [getattr(p, n, "<unset>") for n in NAMES]
+
+%(fns)s
+'''
+
+EMBED_UFN = '''
+def u_T%(T)d(raw: bytes, off: int) -> str:
+    raw = fix(raw, %(T)d)
+    assume(0 <= off <= %(offhi)d)
+    p0, e0 = _unpack(REF, raw, off)
+    p1, e1 = _unpack(ALT, raw, off)
+    if (p0 is None) != (p1 is None):
+        return "FAIL sig=C03|unpack-accepts-differently|%(key)s|%(cfg)s generic=%%r" %% (p0 is not None,)
+    if p0 is None:
+        return "ok:rejected"
+    if e0 != e1:
+        return "FAIL sig=C03|unpack-end-differs|%(key)s|%(cfg)s %%r vs %%r" %% (e0, e1)
+    o0, o1 = _values(p0), _values(p1)
+    if o0 != o1:
+        return "FAIL sig=C03|unpack-values-differ|%(key)s|%(cfg)s generic=%%r alt=%%r" %% (o0, o1)
+    return "ok:accepted"
+'''
+
+
+def _embed_pack_fn(key, cfg, fields):
+    args = ", ".join("%s: %s" % (n, t) for n, t in fields)
+    pre = "\n".join("    assume(len(%s) <= 2)" % n for n, t in fields if t == "bytes") or "    pass"
+    build = ", ".join("%s=%s" % (n, n) for n, t in fields)
+    return '''
+def p_vals(%(args)s) -> str:
+%(pre)s
+    pk_ref = REF(%(build)s)
+    pk_alt = ALT(%(build)s)
+    try:
+        oa = pk_ref.pack()
+    except PacketError as e:
+        oa = None
+    try:
+        ob = pk_alt.pack()
+    except PacketError as e:
+        ob = None
+    if (oa is None) != (ob is None):
+        return "FAIL sig=C03|pack-fails-differently|%(key)s|%(cfg)s generic_ok=%%r" %% (oa is not None,)
+    if oa is None:
+        return "ok:rejected"
+    if oa != ob:
+        return "FAIL sig=C03|pack-bytes-differ|%(key)s|%(cfg)s generic=%%r alt=%%r" %% (oa, ob)
+    return "ok:packed"
+''' % dict(args=args, pre=pre, build=build, key=key, cfg=cfg)
+
+
+def _embed_obligations(tier, cfgs):
+    obs = []
+    for key, (header, body, fields, lmax) in EMBED.items():
+        offhi = 1
+        lengths = sorted(set([0, 1, lmax // 2, lmax - 2, lmax - 1, lmax, lmax + 1])) if tier == "quick" else list(range(0, lmax + 3))
+        for gp, gu, vec, ann in cfgs:
+            cfg = "%d%d%d%d" % (gp, gu, vec, ann)
+            opts = {"generate_for_pack": gp, "generate_for_unpack": gu, "vectorize": vec, "annotate": ann}
+            fns = "".join(EMBED_UFN % dict(T=T, offhi=min(offhi, T), key=key, cfg=cfg) for T in lengths)
+            fns += _embed_pack_fn(key, cfg, fields)
+            src = EMBED_TEMPLATE % dict(prelude=S.PRELUDE, header=header, body=body, opts=opts, names=[n for n, t in fields], fns=fns)
+            text = "class Header(Packet):\n    %s\n\nclass Msg(Packet):\n    %s" % (header, body)
+            if gu:
+                obs.append({"id": "C03/%s/%s/unpack" % (key, cfg), "module": "c03_%s_%s" % (key, cfg), "source": src,
+                            "fn": ["u_T%d" % T for T in lengths], "required_tags": ["accepted", "rejected"],
+                            "bound": "raw of total length in %s, start offset in [0,%d]" % (lengths, offhi),
+                            "assertion": "same accept/reject, end offset and field values as configuration 0000", "decl_text": text})
+            if gp:
+                obs.append({"id": "C03/%s/%s/pack" % (key, cfg), "module": "c03_%s_%s" % (key, cfg), "source": src,
+                            "fn": "p_vals", "required_tags": ["packed"],
+                            "bound": "every field value symbolic: ints unbounded, byte strings of <=2 bytes",
+                            "assertion": "same bytes, or PacketError on both, as configuration 0000", "decl_text": text})
+    return obs
+
+
 def build(tier, seed):
     entries = select(tier, families=("G",))
     extra = ["s_int_run", "s_int_cls_little", "s_data3", "s_bits_two_runs", "d_based_on_other"]
@@ -137,7 +256,8 @@ def build(tier, seed):
                                      "(<=3 when variable), lists of <=2 ints",
                             "assertion": "same bytes, or PacketError on both, as configuration 0000",
                             "decl_text": classes})
+    obs += _embed_obligations(tier, cfgs)
     return {"obligations": obs,
-            "bounds": {"declarations": [e["key"] for e in entries], "configurations": "15 non-reference combinations of the 4 switches"},
+            "bounds": {"declarations": [e["key"] for e in entries] + sorted(EMBED), "configurations": "15 non-reference combinations of the 4 switches"},
             "outside": ["byte-string values whose length differs from the declared constant size (struct 's' pads/truncates; "
                         "not 'well-typed')"], "assumptions": []}
